@@ -15,11 +15,35 @@ use super::SecretKey;
 use super::{PublicKey, V2};
 
 #[cfg(feature = "verifying")]
+/// The neutral element of the curve (y = 1, in any of the encodings a decoder may accept) is not a
+/// valid public key.
+fn is_identity(bytes: &[u8; 32]) -> bool {
+    let mut y = *bytes;
+    y[31] &= 0x7f;
+    let one = {
+        let mut b = [0u8; 32];
+        b[0] = 1;
+        b
+    };
+    // the non-canonical encoding y = p + 1 = 2^255 - 18
+    let p_plus_one = {
+        let mut b = [0xffu8; 32];
+        b[0] = 0xee;
+        b[31] = 0x7f;
+        b
+    };
+    y == one || y == p_plus_one
+}
+
+#[cfg(feature = "verifying")]
 impl HasKey<Public> for V2 {
     type Key = PublicKey;
 
     fn decode(bytes: &[u8]) -> Result<PublicKey, PasetoError> {
         let key = bytes.try_into().map_err(|_| PasetoError::InvalidKey)?;
+        if is_identity(&key) {
+            return Err(PasetoError::InvalidKey);
+        }
         ed25519_dalek::VerifyingKey::from_bytes(&key)
             .map(PublicKey)
             .map_err(|_| PasetoError::InvalidKey)
